@@ -14,7 +14,6 @@ from vtlmc import harness
 
 LEVELS = ("scalar", "component", "dataset")
 MASK = "YYYY-MM-DD"
-CHUNK = 16
 MASK_VALUE = {"Integer": 3, "Number": 3.5, "Boolean": True, "String": "2020-01-15", "Date": "2020-01-15",
               "Time_Period": "2020Q1", "Time": "2020-01-01/2020-12-31", "Duration": "A"}
 _DOC_NAME = {v: k for k, v in R.ENGINE_NAME.items()}
@@ -69,7 +68,8 @@ def _tname(data_type):
     return _DOC_NAME.get(n, n)
 
 
-def script_for(level, src, tgt, entries, mask=None):
+def script_for(level, src, tgt, entries, mask=None, guards="with"):
+    """guards (scalar level): 'with' = guard statement g_<label> before every nested-cast literal, 'none', 'only'"""
     m = ', "%s"' % mask if mask else ""
     kw = R.KEYWORD[tgt]
     if level == "dataset":
@@ -79,9 +79,10 @@ def script_for(level, src, tgt, entries, mask=None):
     out = []
     for i, (lab, v) in enumerate(entries):
         lit, guard = literal(src, v)
-        if guard:
+        if guard and guards != "none":
             out.append("g_%s <- %s;" % (lab, lit))
-        out.append("x_%s <- cast(%s, %s%s);" % (lab, lit, kw, m))
+        if guards != "only":
+            out.append("x_%s <- cast(%s, %s%s);" % (lab, lit, kw, m))
     return "\n".join(out)
 
 
@@ -92,6 +93,15 @@ def run_level(V, d, level, src, tgt, fmt, entries, sa=False, mask=None):
     script = script_for(level, src, tgt, entries, mask)
     if level == "scalar":
         st = harness.structures()
+        if len(entries) == 1 and not sa and not mask and literal(src, entries[0][1])[1]:
+            # a single value whose source literal is itself a cast: the literal is evaluated on its own first, so
+            # that a failure of the inner cast is never attributed to the cast under test
+            lab, v = entries[0]
+            g = harness.call(V.run, script_for(level, src, tgt, entries, guards="only"), st, {}, time_period_output_format=fmt)
+            gv = harness.canon_value(g[1]["g_" + lab].value) if g[0] == "ok" and "g_" + lab in g[1] else "<%s>" % (g[2] if g[0] == "err" else "missing")
+            if g[0] != "ok" or not R.expect(d, src, src, v, fmt).check(gv):
+                return ("ok", {}), {lab: ("unavailable", "the source literal %s evaluates to %r, not to %r" % (literal(src, v)[0], gv, v))}
+            script = script_for(level, src, tgt, entries, guards="none")
         out = harness.call(V.semantic_analysis, script, st) if sa else \
             harness.call(V.run, script, st, {}, time_period_output_format=fmt)
         if out[0] == "err":
@@ -103,7 +113,7 @@ def run_level(V, d, level, src, tgt, fmt, entries, sa=False, mask=None):
             if x is None:
                 per[lab] = ("err", "raw", "MissingResult", None, "no result x_%s" % lab)
                 continue
-            if guard and not sa:
+            if guard and not sa and ("g_" + lab) in script:
                 g = out[1].get("g_" + lab)
                 gv = harness.canon_value(g.value) if g is not None else "<missing>"
                 if not R.expect(d, src, src, v, fmt).check(gv):
@@ -438,7 +448,11 @@ class PairJudge:
                     for vc in crisp_classes:
                         del groups[(vc, dv)]
         for (vc, dv), g in groups.items():
-            lab = g["labels"][0]
+            nlev = {}
+            for l2, dv2, ls2, _ in records:
+                if dv2 == dv and l2 in g["labels"]:
+                    nlev[l2] = max(nlev.get(l2, 0), len(ls2))
+            lab = max(g["labels"], key=lambda x: (nlev.get(x, 0), -order[x]))   # the value showing it at most levels
             found["C09:value:%s->%s:%s:%s%s" % (src, tgt, vc, dv, g["at"])] = (self.describe(fmt, exps[lab], lab, rn_out, live), g["replay"])
 
 
@@ -488,10 +502,10 @@ def work(item, rec):
         for key, oc, nt, sample in j.cases:
             rec.case(key, oc, nontrivial=nt, sample=sample if oc.startswith("VIOLATION") or key[2] not in ("null", "any-value") else None)
         rec.count("api_calls", j.calls)
-        if labels is None or labels[0] == R.pool(d, src)[0][0]:
-            rec.count("pairs_" + j.status)
-        for key, (what, labels) in sorted(j.violations.items()):
-            rec.violation(key, what, {"kind": "pair", "src": src, "tgt": tgt, "formats": list(formats), "labels": labels, "key": key})
+        rec.count("pairs_" + j.status)
+        for key, (what, labs) in sorted(j.violations.items()):
+            rec.violation(key, what, {"kind": "pair", "src": src, "tgt": tgt, "formats": list(formats), "key": key,
+                                      "values": None if labs is None else [j.values[l] for l in labs]})
     else:
         _, src = item
         for tgt in R.TYPES:
@@ -554,20 +568,14 @@ class Check:
                 fm = ("vtl",)
                 if tier == "thorough" and renders_periods(src, tgt) and R.pair_status(d, src, tgt) != "forbidden":
                     fm = tuple(R.FORMATS)
-                labs = [lab for lab, _ in R.pool(d, src)]
-                if R.pair_status(d, src, tgt) != "forbidden" and len(labs) > CHUNK:
-                    # big pools are split (the chunks are fixed by the pool order, never by the seed)
-                    for ch in harness.chunks(labs, CHUNK):
-                        items.append(("pair", src, tgt, fm, tuple(ch)))
-                else:
-                    items.append(("pair", src, tgt, fm, None))
+                items.append(("pair", src, tgt, fm, None))
             items.append(("mask", src))
         status = {s: sum(1 for a in R.TYPES for b in R.TYPES if R.pair_status(d, a, b) == s) for s in ("allowed", "ambiguous", "forbidden")}
         if not status["allowed"] or not status["forbidden"]:
             rec.tool_error("degenerate documented table: %s" % status)
-        # heaviest items first (String source), then the seeded order of the rest
+        # the seed only permutes the order; the heaviest items (String source: biggest pool) are started first
         items = harness.seeded_order(items, seed)
-        items.sort(key=lambda it: 0 if (it[0] == "pair" and it[4] is not None) else 1)
+        items.sort(key=lambda it: 0 if (it[0] == "pair" and it[1] == "String") else 1)
         harness.pmap(work, items, rec)
         if not rec.outcomes.get("converts-as-documented") or not rec.outcomes.get("rejected-as-documented") \
                 or not rec.outcomes.get("forbidden-pair:rejected-SemanticError"):
@@ -583,7 +591,10 @@ class Check:
         if data["kind"] == "mask":
             _, found = judge_mask(V, d, data["src"], data["tgt"])
             return data["key"] in found
-        j = PairJudge(V, d, data["src"], data["tgt"], list(data["formats"]), labels=data.get("labels")).judge()
+        labels = data.get("labels")
+        if data.get("values") is not None:      # values of the source pool to re-judge (None = the whole pool)
+            labels = [lab for lab, v in R.pool(d, data["src"]) if any(v is w or (type(v) is type(w) and v == w) for w in data["values"])]
+        j = PairJudge(V, d, data["src"], data["tgt"], list(data["formats"]), labels=labels).judge()
         for k, (what, _) in sorted(j.violations.items()):
             print("   replayed: %s :: %s" % (k, what[:300]))
         return data["key"] in j.violations
